@@ -77,6 +77,10 @@ impl Tally {
         self.counters.get(k).copied().unwrap_or(0)
     }
 
+    pub fn sum_prefix(&self, prefix: &str) -> u64 {
+        self.counters.iter().filter(|(k, _)| k.starts_with(prefix)).map(|(_, v)| *v).sum()
+    }
+
     pub fn eval(&mut self) {
         self.evaluations += 1;
     }
